@@ -42,6 +42,7 @@ CreatorsBoth == {"other", "fastparquet-like"}
 CreatorOther == {"other"}
 StatsAbsent == {"absent"}
 StatsBoth == {"absent", "exact"}
+StatsPresent == {"exact", "new"}
 PadNone == {0}
 PadsSmall == {0, 126, 253}
 PadsEdges == {0, 126, 253, 32766, 65533}      \* used indices straddle 2^7, 2^8, 2^15, 2^16
